@@ -4,6 +4,9 @@ helper lemmas are in Lemmas.lean.
 -/
 import BV.C09.Lemmas
 import BV.C09.Lemmas2
+import BV.C09.Lemmas3
+import BV.C09.Lemmas4
+import BV.C09.Lemmas5
 import BV.Generated.C09
 namespace BV.C09
 open Spec
@@ -23,6 +26,40 @@ theorem bigToCompact_compactToBig (e m : Nat) (he : 3 ≤ e) (he' : e < 256)
 example : bigToCompact (compactToBig 0x1b0404cb) = 0x1b0404cb := by
   have := bigToCompact_compactToBig 0x1b 0x0404cb (by decide) (by decide) (by decide) (by decide)
   simpa using this
+
+/-- Round trip on the second normal form `0x008000 ≤ mantissa < 0x010000` (mainnet's `0x1d00ffff`): the
+    encoder produces it whenever the third significant byte would set the sign bit. -/
+theorem bigToCompact_compactToBig_nf2 (e m : Nat) (he : 3 ≤ e) (he' : e < 256)
+    (hm : 0x008000 ≤ m) (hm' : m < 0x010000) :
+    bigToCompact (compactToBig (e * 2^24 + m)) = e * 2^24 + m :=
+  Lemmas.b2c_c2b_nf2 e m he he' hm hm'
+
+example : bigToCompact (compactToBig 0x1d00ffff) = 0x1d00ffff := by
+  have := bigToCompact_compactToBig_nf2 0x1d 0x00ffff (by decide) (by decide) (by decide) (by decide)
+  simpa using this
+
+/-- `Lemmas.normalForm c` (decidable): exponent < 256, sign clear, and the mantissa is either ≥ 0x8000 with
+    exponent ≥ 3, or a shifted one/two-byte value for exponents 1 and 2. Every normal compact is a fixed
+    point of decode-then-encode … -/
+theorem bigToCompact_compactToBig_normal (c : Nat) (h : Lemmas.normalForm c) :
+    bigToCompact (compactToBig c) = c := Lemmas.b2c_c2b_normal c h
+
+/-- … and the encoder only ever produces normal compacts (positive numbers of at most 254 bytes, which
+    includes every 256-bit target): `normalForm` is exactly the image of `BigToCompact`. -/
+theorem bigToCompact_is_normal (a : Nat) (ha : 0 < a) (hlen : byteLen a ≤ 254) :
+    Lemmas.normalForm (bigToCompact (a : Int)) := Lemmas.b2c_is_normal a ha hlen
+
+/-- Hence encoding is idempotent through the decoder: a retargeted `bits` value decodes and re-encodes
+    to itself, so header bits compare equal iff their targets do. -/
+theorem bigToCompact_idempotent (a : Nat) (ha : 0 < a) (hlen : byteLen a ≤ 254) :
+    bigToCompact (compactToBig (bigToCompact (a : Int))) = bigToCompact (a : Int) :=
+  Lemmas.b2c_idempotent a ha hlen
+
+/-- normal compacts decode to positive numbers -/
+theorem normalForm_pos (c : Nat) (h : Lemmas.normalForm c) : 0 < compactToBig c := Lemmas.normal_pos c h
+
+/-- every shipped powLimitBits is normal -/
+example : Lemmas.normalForm 0x1d00ffff ∧ Lemmas.normalForm 0x207fffff ∧ Lemmas.normalForm 0x1e0377ae := by decide
 
 /-- `BigToCompact` then `CompactToBig` on any positive target of at most 254 bytes (every 256-bit target)
     rounds down, by less than `256^(len-2)`: exactly the three most significant bytes survive
@@ -64,6 +101,31 @@ theorem workSum_strict_mono (acc : Nat) (bits : Nat)
   have := calcWork_pos bits h0 h1; omega
 
 example : 0 < compactToBig 0x1d00ffff ∧ compactToBig 0x1d00ffff < 2^256 := by decide
+
+/-- A smaller (harder) target never has less work. -/
+theorem calcWork_antitone (b1 b2 : Nat) (h1 : 0 < compactToBig b1) (h12 : compactToBig b1 ≤ compactToBig b2) :
+    calcWork b2 ≤ calcWork b1 := Lemmas.calcWork_antitone b1 b2 h1 h12
+
+/-- `blockNode.workSum` is the sum of the per-block work over the chain … -/
+theorem workSum_eq_sum (chain : List Hdr) :
+    workSum chain = (chain.map (fun h => calcWork h.bits)).sum := Lemmas.workSum_eq_sum chain
+
+theorem workSum_append (ext chain : List Hdr) : workSum (ext ++ chain) = workSum ext + workSum chain :=
+  Lemmas.workSum_append ext chain
+
+/-- … and strictly increases along ANY non-empty extension by valid-target headers (induction over the
+    extension): a descendant always has strictly more cumulative work than its ancestor. -/
+theorem workSum_chain_strict_mono (ext chain : List Hdr) (hne : ext ≠ [])
+    (hv : ∀ h ∈ ext, 0 < compactToBig h.bits ∧ compactToBig h.bits < 2^256) :
+    workSum chain < workSum (ext ++ chain) := Lemmas.workSum_strict_mono_chain ext chain hne hv
+
+/-- every valid-target block contributes at least one unit of work -/
+theorem workSum_ge_length (chain : List Hdr)
+    (hv : ∀ h ∈ chain, 0 < compactToBig h.bits ∧ compactToBig h.bits < 2^256) :
+    chain.length ≤ workSum chain := Lemmas.workSum_ge_length chain hv
+
+example : ∀ h ∈ [(⟨0, 0x1d00ffff⟩ : Hdr)], 0 < compactToBig h.bits ∧ compactToBig h.bits < 2^256 := by
+  intro h hh; simp at hh; subst hh; decide
 
 /-! ### proof-of-work check -/
 
@@ -126,6 +188,114 @@ theorem noRetarget_const (p : Params) (chain : List Hdr) (t : Int) (h : p.noReta
     calcNextRequiredDifficulty p chain t = some p.powLimitBits := by
   simp [calcNextRequiredDifficulty, h]
 
+/-- Bitcoin Core computes the product in `arith_uint256` (wraps mod 2^256), btcd in `big.Int`. When the
+    old target is a valid one (`0 ≤ old ≤ powLimit`) and `powLimit · maxTimespan < 2^256`, no wrap happens and
+    the two agree. -/
+theorem retarget_agrees_with_core (old actual tMin tMax T lim : Int) (h0 : 0 ≤ old) (hol : old ≤ lim)
+    (hmin : 0 ≤ tMin) (hmm : tMin ≤ tMax) (hw : lim * tMax < 2^256) :
+    retargetCore old actual tMin tMax T lim = retarget old actual tMin tMax T lim :=
+  Lemmas.retargetCore_eq old actual tMin tMax T lim h0 hol hmin hmm hw
+
+/-- The side condition matters: with the regtest/simnet limit 2^255-1 and mainnet timing the 256-bit
+    product wraps (Core never gets there: regtest has `fPowNoRetargeting`, simnet does not exist in Core). -/
+theorem retarget_core_wrap_witness :
+    retargetCore (2^255 - 1) 4838400 302400 4838400 1209600 (2^255 - 1) ≠
+      retarget (2^255 - 1) 4838400 302400 4838400 1209600 (2^255 - 1) := Lemmas.retargetCore_wraps
+
+/-- The side condition holds on every shipped network that retargets and exists in Core
+    (mainnet, testnet3, testnet4, signet): `powLimit · (targetTimespan · adjFactor) < 2^256`, and the
+    clamp interval is well-formed. Regtest never retargets. -/
+theorem pin_no_wrap_shipped :
+    Generated.C09.main_powLimit * (Generated.C09.main_targetTimespan * Generated.C09.main_adjFactor) < 2^256 ∧
+    Generated.C09.test3_powLimit * (Generated.C09.test3_targetTimespan * Generated.C09.test3_adjFactor) < 2^256 ∧
+    Generated.C09.test4_powLimit * (Generated.C09.test4_targetTimespan * Generated.C09.test4_adjFactor) < 2^256 ∧
+    Generated.C09.sig_powLimit * (Generated.C09.sig_targetTimespan * Generated.C09.sig_adjFactor) < 2^256 ∧
+    Generated.C09.reg_noRetarget = true ∧
+    (0 ≤ Int.tdiv Generated.C09.main_targetTimespan Generated.C09.main_adjFactor ∧
+      Int.tdiv Generated.C09.main_targetTimespan Generated.C09.main_adjFactor ≤
+        Generated.C09.main_targetTimespan * Generated.C09.main_adjFactor) := by decide
+
+/-- Simnet (btcd only) is the one shipped retargeting network whose product can exceed 2^256: there is no
+    Core behaviour to agree with, and btcd's `big.Int` arithmetic is exact. -/
+theorem pin_simnet_product_exceeds :
+    Generated.C09.sim_noRetarget = false ∧
+    2^256 ≤ Generated.C09.sim_powLimit * (Generated.C09.sim_targetTimespan * Generated.C09.sim_adjFactor) := by
+  decide
+
+/-- The model's retarget branch therefore equals Core's wrapped computation under the stated side
+    conditions (the old target is that of an accepted block, i.e. `≤ powLimit`). -/
+theorem retarget_model_eq_core (p : Params) (last : Hdr) (rest : List Hdr) (t : Int) (first : Hdr)
+    (hnr : p.noRetarget = false)
+    (hb : Int.tmod ((rest.length : Int) + 1) p.blocksPerRetarget = 0)
+    (hd : 0 ≤ p.blocksPerRetarget - 1)
+    (hf : (last :: rest)[(p.blocksPerRetarget - 1).toNat]? = some first)
+    (hmin : 0 ≤ p.minSpan) (hmm : p.minSpan ≤ p.maxSpan) (hw : p.powLimit * p.maxSpan < 2^256)
+    (h0 : 0 ≤ (if p.enforceBIP94 then compactValue first.bits else compactValue last.bits))
+    (hol : (if p.enforceBIP94 then compactValue first.bits else compactValue last.bits) ≤ p.powLimit) :
+    calcNextRequiredDifficulty p (last :: rest) t =
+      some (bigToCompact (retargetCore
+        (if p.enforceBIP94 then compactValue first.bits else compactValue last.bits)
+        (last.time - first.time) p.minSpan p.maxSpan p.targetTimespan p.powLimit)) := by
+  rw [retarget_eq_spec p last rest t first hnr hb hd hf,
+    retarget_agrees_with_core _ _ _ _ _ _ h0 hol hmin hmm hw]
+
+/-- The genesis rule: the first block after an empty history must carry powLimitBits. -/
+theorem genesis_rule (p : Params) (t : Int) : calcNextRequiredDifficulty p [] t = some p.powLimitBits :=
+  Lemmas.l5_genesis p t
+
+/-- With at least one block per period the computation is total: the AssertError
+    ("unable to obtain previous retarget block") is unreachable on a history that starts at genesis. -/
+theorem calcNext_total (p : Params) (chain : List Hdr) (t : Int) (hbpr : 0 < p.blocksPerRetarget) :
+    (calcNextRequiredDifficulty p chain t).isSome = true := Lemmas.l5_total p chain t hbpr
+
+/-- BIP94 (testnet4): the retarget starts from the bits of the FIRST block of the closing period. -/
+theorem bip94_uses_first_block (p : Params) (last : Hdr) (rest : List Hdr) (t : Int) (first : Hdr)
+    (hnr : p.noRetarget = false) (h94 : p.enforceBIP94 = true)
+    (hb : Int.tmod ((rest.length : Int) + 1) p.blocksPerRetarget = 0)
+    (hd : 0 ≤ p.blocksPerRetarget - 1)
+    (hf : (last :: rest)[(p.blocksPerRetarget - 1).toNat]? = some first) :
+    calcNextRequiredDifficulty p (last :: rest) t =
+      some (bigToCompact (retarget (compactValue first.bits)
+        (last.time - first.time) p.minSpan p.maxSpan p.targetTimespan p.powLimit)) := by
+  rw [retarget_eq_spec p last rest t first hnr hb hd hf, h94]; rfl
+
+/-- … so under BIP94 (≥ 2 blocks per period) a min-difficulty block closing the period has no influence
+    on the next period's target. -/
+theorem bip94_ignores_last_bits (p : Params) (last : Hdr) (rest : List Hdr) (t : Int) (b' : Nat)
+    (h94 : p.enforceBIP94 = true) (h2 : 2 ≤ p.blocksPerRetarget)
+    (hb : Int.tmod ((rest.length : Int) + 1) p.blocksPerRetarget = 0) :
+    calcNextRequiredDifficulty p ({ last with bits := b' } :: rest) t =
+      calcNextRequiredDifficulty p (last :: rest) t := Lemmas.l5_bip94_ignores_last_bits p last rest t b' h94 h2 hb
+
+/-- The first block of a period never benefits from the min-difficulty exception: on a boundary the result
+    is independent of `reduceMinDiff`, of the reduction time and of the new block's time stamp. -/
+theorem boundary_ignores_mindiff (p : Params) (last : Hdr) (rest : List Hdr) (t t' : Int) (b : Bool) (x : Int)
+    (hb : Int.tmod ((rest.length : Int) + 1) p.blocksPerRetarget = 0) :
+    calcNextRequiredDifficulty { p with reduceMinDiff := b, minDiffReductionTime := x } (last :: rest) t' =
+      calcNextRequiredDifficulty p (last :: rest) t := Lemmas.l5_boundary_ignores_mindiff p last rest t t' b x hb
+
+/-- Testnet rule, block in time: the walk-back value is required. -/
+theorem mindiff_on_time_block (p : Params) (last : Hdr) (rest : List Hdr) (t : Int)
+    (hnr : p.noRetarget = false) (hr : p.reduceMinDiff = true)
+    (hb : Int.tmod ((rest.length : Int) + 1) p.blocksPerRetarget ≠ 0)
+    (ht : t ≤ last.time + p.minDiffReductionTime) :
+    calcNextRequiredDifficulty p (last :: rest) t = some (findPrevTestNetDifficulty p (last :: rest)) :=
+  Lemmas.l5_mindiff_on_time p last rest t hnr hr hb ht
+
+/-- The walk-back stops at once on a block that does not carry powLimitBits … -/
+theorem walkback_non_limit (p : Params) (last : Hdr) (rest : List Hdr) (h : last.bits ≠ p.powLimitBits) :
+    findPrevTestNetDifficulty p (last :: rest) = last.bits := Lemmas.l5_walkback_non_limit p last rest h
+
+/-- … and on the first block of a period, whatever its bits (it never crosses a retarget boundary). -/
+theorem walkback_boundary (p : Params) (last : Hdr) (rest : List Hdr)
+    (h : Int.tmod (rest.length : Int) p.blocksPerRetarget = 0) :
+    findPrevTestNetDifficulty p (last :: rest) = last.bits := Lemmas.l5_walkback_boundary p last rest h
+
+/-- The walk-back answers with the bits of a block of the history, or powLimitBits. -/
+theorem walkback_mem (p : Params) (chain : List Hdr) :
+    findPrevTestNetDifficulty p chain = p.powLimitBits ∨
+      ∃ h ∈ chain, findPrevTestNetDifficulty p chain = h.bits := Lemmas.l5_walkback_mem p chain
+
 /-- Testnet min-difficulty rule: more than the reduction time after the tip ⇒ powLimitBits. -/
 theorem mindiff_late_block (p : Params) (last : Hdr) (rest : List Hdr) (t : Int)
     (hnr : p.noRetarget = false) (hr : p.reduceMinDiff = true)
@@ -155,6 +325,74 @@ theorem mtp_is_median (chain : List Hdr) (hne : chain ≠ []) :
       (ts.filter (· > m)).length ≤ (ts.length - 1) / 2 :=
   Lemmas.mtp_is_median chain hne
 
+/-- Under the time-stamp rule (a new header must be later than the MTP of its parent) the median time
+    past never decreases along a chain. -/
+theorem mtp_monotone (h : Hdr) (chain : List Hdr) (hne : chain ≠ [])
+    (ht : h.time > calcPastMedianTime chain) :
+    calcPastMedianTime chain ≤ calcPastMedianTime (h :: chain) := Lemmas.mtp_monotone h chain hne ht
+
+example : (⟨5, 0⟩ : Hdr).time > calcPastMedianTime [⟨4, 0⟩, ⟨3, 0⟩] := by decide
+
+/-! ### header context / sanity verdicts (`CheckBlockHeaderContext`, `CheckBlockHeaderSanity`) -/
+
+/-- A header passes the difficulty and time-stamp clauses of `CheckBlockHeaderContext` iff its bits are the
+    required ones, its time is after the parent's MTP and (BIP94 networks) it is no time-warp block. -/
+theorem header_context_ok_iff (p : Params) (prev : Hdr) (rest : List Hdr) (h : Hdr) :
+    checkBlockHeaderContext p (prev :: rest) h false = .ok ↔
+      calcNextRequiredDifficulty p (prev :: rest) h.time = some h.bits ∧
+      calcPastMedianTime (prev :: rest) < h.time ∧
+      (p.enforceBIP94 = true →
+        assertNoTimeWarp (((prev :: rest).length : Nat) : Int) p.blocksPerRetarget h.time prev.time = true) :=
+  Lemmas.l5_ctx_ok_iff p prev rest h
+
+/-- `BFFastAdd` skips all three clauses. -/
+theorem header_context_fast_add (p : Params) (prev : Hdr) (rest : List Hdr) (h : Hdr) :
+    checkBlockHeaderContext p (prev :: rest) h true = .ok := Lemmas.l5_ctx_fast p prev rest h
+
+/-- `checkProofOfWork` with flags: the hash clause is dropped exactly under `BFNoPoWCheck`. -/
+theorem pow_flags_ok_iff (bits : Nat) (hash : List UInt8) (lim : Int) (np : Bool) :
+    checkProofOfWorkFlags bits hash lim np = .ok ↔
+      0 < compactValue bits ∧ compactValue bits ≤ lim ∧
+      (np = true ∨ (hashToBig hash : Int) ≤ compactValue bits) := by
+  rw [← compactToBig_eq_spec]; exact Lemmas.l5_powflags_ok_iff bits hash lim np
+
+theorem pow_flags_none (bits : Nat) (hash : List UInt8) (lim : Int) :
+    checkProofOfWorkFlags bits hash lim false = checkProofOfWork bits hash lim :=
+  Lemmas.l5_powflags_false bits hash lim
+
+/-- `CheckBlockHeaderSanity` accepts iff the PoW clause holds, the time stamp has whole-second precision
+    and it is at most two hours ahead of the adjusted time. -/
+theorem header_sanity_ok_iff (bits : Nat) (hash : List UInt8) (lim : Int) (np : Bool) (sec nsec adj : Int) :
+    checkBlockHeaderSanity bits hash lim np sec nsec adj = .ok ↔
+      checkProofOfWorkFlags bits hash lim np = .ok ∧ nsec = 0 ∧ sec ≤ adj + MAX_TIME_OFFSET :=
+  Lemmas.l5_sanity_ok_iff bits hash lim np sec nsec adj
+
+/-! ### calcEasiestDifficulty (checkpoint-era lower bound on claimed work) -/
+
+/-- The loop multiplies the target by the adjustment factor once per elapsed maximal retarget timespan,
+    stopping as soon as the duration is used up or the limit is reached: the result is `t · adj^k` where
+    `k` is exactly the number of iterations whose guard held. -/
+theorem easiestLoop_spec (adj maxSpan lim : Int) (fuel : Nat) (d t : Int) :
+    ∃ k : Nat, k ≤ fuel ∧ easiestLoop adj maxSpan lim fuel d t = t * adj ^ k ∧
+      (∀ j : Nat, j < k → d - j * maxSpan > 0 ∧ t * adj ^ j < lim) ∧
+      (k = fuel ∨ ¬ (d - k * maxSpan > 0 ∧ t * adj ^ k < lim)) :=
+  Lemmas.l5_easiestLoop_spec adj maxSpan lim fuel d t
+
+/-- With `maxSpan ≥ 1` (every shipped network) the model's fuel is never the reason to stop: one more unit
+    of fuel changes nothing, i.e. the Go `for` loop terminates with the same value. -/
+theorem easiestLoop_fuel_enough (adj maxSpan lim : Int) (hs : 1 ≤ maxSpan) (fuel : Nat) (d t : Int)
+    (hf : d ≤ fuel) :
+    easiestLoop adj maxSpan lim (fuel + 1) d t = easiestLoop adj maxSpan lim fuel d t :=
+  Lemmas.l5_easiestLoop_fuel adj maxSpan lim hs fuel d t hf
+
+/-- The easiest difficulty never decodes to a target above the proof-of-work limit. -/
+theorem easiest_le_limit (p : Params) (bits : Nat) (d : Int)
+    (hlim : 0 < p.powLimit) (hlen : p.powLimit < 256 ^ 254)
+    (hbits : compactToBig p.powLimitBits ≤ p.powLimit)
+    (ht : 0 ≤ compactToBig bits) (ha : 0 ≤ p.adjFactor) :
+    compactToBig (calcEasiestDifficulty p bits d) ≤ p.powLimit :=
+  Lemmas.l5_easiest_le_limit p bits d hlim hlen hbits ht ha
+
 /-! ### subsidy -/
 
 /-- `CalcBlockSubsidy` equals the protocol schedule on non-negative heights and positive intervals. -/
@@ -164,6 +402,27 @@ theorem subsidy_eq_spec (h i : Nat) (hi : 0 < i) :
 /-- Total issuance never exceeds 21 million coins, for every height and every interval ≤ 210000. -/
 theorem total_subsidy_le (N I : Nat) (hI : 0 < I) (hI' : I ≤ 210000) :
     totalSubsidy I N ≤ MAX_MONEY := Lemmas.total_subsidy_le N I hI hI'
+
+/-- Total issuance is monotone in the height. -/
+theorem totalSubsidy_mono (I N M : Nat) (h : N ≤ M) : totalSubsidy I N ≤ totalSubsidy I M :=
+  Lemmas.totalSubsidy_mono I N M h
+
+/-- The 33 paying eras of the 210000-block schedule sum to 9 999 999 989 satoshi per block position. -/
+theorem halvingSum_33 : halvingSum 33 = 9999999989 := Lemmas.halvingSum_33
+
+/-- Exact mainnet issuance: from height 33·210000 on, exactly 2 099 999 997 690 000 satoshi exist … -/
+theorem total_subsidy_exact (N : Nat) (h : 33 * 210000 ≤ N) : totalSubsidy 210000 N = MAINNET_TOTAL :=
+  Lemmas.total_subsidy_exact N h
+
+/-- … never more at any height … -/
+theorem total_subsidy_le_exact (N : Nat) : totalSubsidy 210000 N ≤ MAINNET_TOTAL :=
+  Lemmas.total_subsidy_le_exact N
+
+/-- … and strictly less before (era 32 still pays one satoshi per block). -/
+theorem total_subsidy_lt_before (N : Nat) (h : N < 33 * 210000) : totalSubsidy 210000 N < MAINNET_TOTAL :=
+  Lemmas.total_subsidy_lt_before N h
+
+example : MAINNET_TOTAL = 2099999997690000 ∧ MAINNET_TOTAL < MAX_MONEY := by decide
 
 /-- interval 0 (synthetic parameter sets) pays 50 BTC forever: excluded from the cap. -/
 theorem subsidy_interval_zero (h : Int) : calcBlockSubsidy h 0 = BASE_SUBSIDY := by
@@ -180,7 +439,7 @@ theorem timewarp_iff (h bpr ht pt : Int) :
 theorem pin_baseSubsidy : Generated.C09.baseSubsidy = (BASE_SUBSIDY : Int) := by decide
 theorem pin_medianTimeBlocks : Generated.C09.medianTimeBlocks = (MEDIAN_TIME_SPAN : Int) := by decide
 theorem pin_maxTimeWarp : Generated.C09.maxTimeWarpSecs = MAX_TIMEWARP := by decide
-theorem pin_maxTimeOffset : Generated.C09.maxTimeOffsetSeconds = 7200 := by decide
+theorem pin_maxTimeOffset : Generated.C09.maxTimeOffsetSeconds = MAX_TIME_OFFSET := by decide
 theorem pin_main :
     Generated.C09.main_powLimit = 2^224 - 1 ∧ Generated.C09.main_powLimitBits = 0x1d00ffff ∧
     Generated.C09.main_subsidyInterval = 210000 ∧ Generated.C09.main_targetTimespan = 1209600 ∧
@@ -199,6 +458,43 @@ theorem pin_other_nets :
     Generated.C09.sim_powLimit = 2^255 - 1 ∧ Generated.C09.sim_powLimitBits = 0x207fffff ∧
     Generated.C09.sig_powLimit = 0x0377ae * 2^216 ∧ Generated.C09.sig_powLimitBits = 0x1e0377ae ∧
     Generated.C09.sig_subsidyInterval = 210000 ∧ Generated.C09.sim_subsidyInterval = 210000 := by decide
+/-- retarget timing of every shipped network: two weeks, ten minutes, factor 4 (2016 blocks per period) -/
+theorem pin_timing_all_nets :
+    [Generated.C09.main_targetTimespan, Generated.C09.test3_targetTimespan, Generated.C09.test4_targetTimespan,
+     Generated.C09.sig_targetTimespan, Generated.C09.reg_targetTimespan, Generated.C09.sim_targetTimespan]
+      = List.replicate 6 1209600 ∧
+    [Generated.C09.main_targetTimePerBlock, Generated.C09.test3_targetTimePerBlock,
+     Generated.C09.test4_targetTimePerBlock, Generated.C09.sig_targetTimePerBlock,
+     Generated.C09.reg_targetTimePerBlock, Generated.C09.sim_targetTimePerBlock] = List.replicate 6 600 ∧
+    [Generated.C09.main_adjFactor, Generated.C09.test3_adjFactor, Generated.C09.test4_adjFactor,
+     Generated.C09.sig_adjFactor, Generated.C09.reg_adjFactor, Generated.C09.sim_adjFactor] = List.replicate 6 4 := by
+  decide
+/-- the rule switches of every shipped network -/
+theorem pin_switches_all_nets :
+    [Generated.C09.main_noRetarget, Generated.C09.test3_noRetarget, Generated.C09.test4_noRetarget,
+     Generated.C09.sig_noRetarget, Generated.C09.reg_noRetarget, Generated.C09.sim_noRetarget]
+      = [false, false, false, false, true, false] ∧
+    [Generated.C09.main_reduceMinDiff, Generated.C09.test3_reduceMinDiff, Generated.C09.test4_reduceMinDiff,
+     Generated.C09.sig_reduceMinDiff, Generated.C09.reg_reduceMinDiff, Generated.C09.sim_reduceMinDiff]
+      = [false, true, true, false, true, true] ∧
+    [Generated.C09.main_enforceBIP94, Generated.C09.test3_enforceBIP94, Generated.C09.test4_enforceBIP94,
+     Generated.C09.sig_enforceBIP94, Generated.C09.reg_enforceBIP94, Generated.C09.sim_enforceBIP94]
+      = [false, false, true, false, false, false] ∧
+    [Generated.C09.test3_minDiffReductionTime, Generated.C09.test4_minDiffReductionTime,
+     Generated.C09.reg_minDiffReductionTime, Generated.C09.sim_minDiffReductionTime] = List.replicate 4 1200 ∧
+    Generated.C09.test3_powLimitBits = 0x1d00ffff ∧ Generated.C09.test4_powLimitBits = 0x1d00ffff := by decide
+/-- every genesis block carries its network's powLimitBits (the genesis rule of the model), and the
+    genesis time stamps are the published ones -/
+theorem pin_genesis :
+    Generated.C09.main_genesisBits = Generated.C09.main_powLimitBits ∧
+    Generated.C09.test3_genesisBits = Generated.C09.test3_powLimitBits ∧
+    Generated.C09.test4_genesisBits = Generated.C09.test4_powLimitBits ∧
+    Generated.C09.sig_genesisBits = Generated.C09.sig_powLimitBits ∧
+    Generated.C09.reg_genesisBits = Generated.C09.reg_powLimitBits ∧
+    Generated.C09.sim_genesisBits = Generated.C09.sim_powLimitBits ∧
+    Generated.C09.main_genesisTime = 1231006505 ∧ Generated.C09.test3_genesisTime = 1296688602 ∧
+    Generated.C09.test4_genesisTime = 1714777860 ∧ Generated.C09.sig_genesisTime = 1598918400 ∧
+    Generated.C09.reg_genesisTime = 1296688602 ∧ Generated.C09.sim_genesisTime = 1401292357 := by decide
 /-- every shipped powLimit is the value of its powLimitBits and is below 2^256 (so work is positive) -/
 theorem pin_powLimitBits_consistent :
     compactToBig 0x1d00ffff ≤ Generated.C09.main_powLimit ∧
